@@ -1,1 +1,641 @@
-/-! # C17 — property theorems (stub) -/
+import Okane.Spec.Import
+/-!
+# C17 — rewrite rules and layered configuration resolve as documented
+
+All theorems about rules hold for every `cap : Captures` (the regex engine is a parameter), every rule list
+and every record.
+-/
+namespace Okane.Import
+open Okane
+
+/-! ## Part 1: `ConfigSet::select` -/
+
+/-- the last document (in merge order) that sets a scalar decides it -/
+def lastSome {β : Type} (f : ConfigFragment → Option β) (ds : List ConfigFragment) : Option β :=
+  ds.reverse.findSome? f
+
+private theorem le_trans' (a b c : ConfigFragment)
+    (h1 : decide (pathLen a ≤ pathLen b) = true) (h2 : decide (pathLen b ≤ pathLen c) = true) :
+    decide (pathLen a ≤ pathLen c) = true := by
+  simp at *; omega
+
+private theorem le_total' (a b : ConfigFragment) :
+    (decide (pathLen a ≤ pathLen b) || decide (pathLen b ≤ pathLen a)) = true := by
+  simp; omega
+
+/-- **The documents in force**: exactly the documents whose `path` occurs in the file path, shortest
+`path` (in bytes) first, and documents with paths of equal length in the order of the configuration file. -/
+theorem C17_select_order (docs : List ConfigFragment) (p : String) :
+    (∀ d, d ∈ matchedDocs docs p ↔ d ∈ docs ∧ pathMatches d p = true) ∧
+    (matchedDocs docs p).Perm (docs.filter (pathMatches · p)) ∧
+    (matchedDocs docs p).Pairwise (fun a b => pathLen a ≤ pathLen b) ∧
+    (∀ n, (matchedDocs docs p).filter (fun d => pathLen d == n)
+          = (docs.filter (pathMatches · p)).filter (fun d => pathLen d == n)) := by
+  have hperm : (matchedDocs docs p).Perm (docs.filter (pathMatches · p)) := List.mergeSort_perm _ _
+  refine ⟨?_, hperm, ?_, ?_⟩
+  · intro d
+    rw [hperm.mem_iff, List.mem_filter]
+  · have := List.pairwise_mergeSort le_trans' le_total' (docs.filter (pathMatches · p))
+    exact this.imp (by intro a b h; simpa using h)
+  · intro n
+    -- the equal-length documents form a sorted sublist of the input, hence a sublist of the output
+    have hsub : ((docs.filter (pathMatches · p)).filter (fun d => pathLen d == n)).Sublist (matchedDocs docs p) := by
+      apply List.sublist_mergeSort le_trans' le_total'
+      · rw [List.pairwise_iff_forall_sublist]
+        intro a b hab
+        have ha : a ∈ (docs.filter (pathMatches · p)).filter (fun d => pathLen d == n) :=
+          hab.subset (by simp)
+        have hb : b ∈ (docs.filter (pathMatches · p)).filter (fun d => pathLen d == n) :=
+          hab.subset (by simp)
+        simp only [List.mem_filter, beq_iff_eq] at ha hb
+        simp; omega
+      · exact List.filter_sublist
+    have hsub2 := hsub.filter (fun d => pathLen d == n)
+    rw [List.filter_filter] at hsub2
+    simp only [Bool.and_self] at hsub2
+    have hlen := (hperm.filter (fun d => pathLen d == n)).length_eq
+    exact (hsub2.eq_of_length hlen.symm).symm
+
+private theorem foldl_merge_scalar {β : Type} (f : ConfigFragment → Option β)
+    (hf : ∀ a b : ConfigFragment, f (a.merge b) = (f b).or (f a)) (rest : List ConfigFragment) (d : ConfigFragment) :
+    f (rest.foldl ConfigFragment.merge d) = (rest.reverse.findSome? f).or (f d) := by
+  induction rest generalizing d with
+  | nil => simp
+  | cons x rest ih =>
+    simp only [List.foldl_cons, List.reverse_cons, List.findSome?_append, ih, hf]
+    simp [Option.or_assoc]
+
+private theorem foldl_merge_rewrite (rest : List ConfigFragment) (d : ConfigFragment) :
+    (rest.foldl ConfigFragment.merge d).rewrite = d.rewrite ++ rest.flatMap (·.rewrite) := by
+  induction rest generalizing d with
+  | nil => simp
+  | cons x rest ih => simp [ih, ConfigFragment.merge, List.append_assoc]
+
+private theorem foldl_merge_path (rest : List ConfigFragment) (d : ConfigFragment) :
+    (rest.foldl ConfigFragment.merge d).path = ((d :: rest).getLast (by simp)).path := by
+  induction rest generalizing d with
+  | nil => simp
+  | cons x rest ih =>
+    simp only [List.foldl_cons, ih]
+    cases rest with
+    | nil => simp [ConfigFragment.merge]
+    | cons y ys => simp [List.getLast_cons]
+
+/-- **Later documents override scalar settings**: each scalar of the merged configuration is the value
+given by the last document in force (in merge order) that sets it; `path` is the last document's. -/
+theorem C17_select_scalars (ds : List ConfigFragment) (m : ConfigFragment) (h : mergeAll ds = some m) :
+    m.encoding = lastSome (·.encoding) ds ∧ m.account = lastSome (·.account) ds ∧
+    m.accountType = lastSome (·.accountType) ds ∧ m.operator = lastSome (·.operator) ds ∧
+    m.commodity = lastSome (·.commodity) ds ∧ m.format = lastSome (·.format) ds ∧
+    some m.path = ds.getLast?.map (·.path) := by
+  cases ds with
+  | nil => simp [mergeAll] at h
+  | cons d rest =>
+    simp only [mergeAll, Option.some.injEq] at h
+    subst h
+    have key : ∀ {β : Type} (f : ConfigFragment → Option β),
+        (∀ a b : ConfigFragment, f (a.merge b) = (f b).or (f a)) →
+        f (rest.foldl ConfigFragment.merge d) = lastSome f (d :: rest) := by
+      intro β f hf
+      rw [foldl_merge_scalar f hf, lastSome, List.reverse_cons, List.findSome?_append]
+      simp
+    refine ⟨key _ (fun _ _ => rfl), key _ (fun _ _ => rfl), key _ (fun _ _ => rfl), key _ (fun _ _ => rfl),
+      key _ (fun _ _ => rfl), key _ (fun _ _ => rfl), ?_⟩
+    rw [foldl_merge_path, List.getLast?_eq_some_getLast (by simp)]
+    simp
+
+/-- **Rewrite rules are concatenated** in merge order. -/
+theorem C17_select_rewrite (ds : List ConfigFragment) (m : ConfigFragment) (h : mergeAll ds = some m) :
+    m.rewrite = ds.flatMap (·.rewrite) := by
+  cases ds with
+  | nil => simp [mergeAll] at h
+  | cons d rest =>
+    simp only [mergeAll, Option.some.injEq] at h
+    subst h
+    simp [foldl_merge_rewrite]
+
+/-- No configuration is selected exactly when no document's `path` occurs in the file path. -/
+theorem C17_select_none (docs : List ConfigFragment) (p : String) :
+    select docs p = .ok none ↔ ∀ d ∈ docs, pathMatches d p = false := by
+  have hmem := (C17_select_order docs p).1
+  unfold select
+  cases hm : matchedDocs docs p with
+  | nil =>
+    simp only [mergeAll, true_iff]
+    intro d hd
+    have := (not_congr (hmem d)).mp (by simp [hm])
+    simpa [hd] using this
+  | cons d rest =>
+    simp only [mergeAll]
+    have hd := (hmem d).mp (by simp [hm])
+    constructor
+    · intro h
+      cases hte : (rest.foldl ConfigFragment.merge d).toEntry <;> simp [hte, Outcome.map'] at h
+    · intro h
+      have := h d hd.1
+      simp [hd.2] at this
+
+/-- **C17, first sentence.**  When `select` returns a configuration, it is the merge of the documents in
+force (`matchedDocs`, characterised by `C17_select_order`): rules concatenated in that order, every scalar
+from the last document setting it, `format` defaulting to the empty format. -/
+theorem C17_select (docs : List ConfigFragment) (p : String) (e : ConfigEntry)
+    (h : select docs p = .ok (some e)) :
+    let ds := matchedDocs docs p
+    e.rewrite = ds.flatMap (·.rewrite) ∧
+    lastSome (·.encoding) ds = some e.encoding ∧ lastSome (·.account) ds = some e.account ∧
+    lastSome (·.accountType) ds = some e.accountType ∧ e.operator = lastSome (·.operator) ds ∧
+    (lastSome (·.commodity) ds).map CommodityConfig.toSpec = some e.commodity ∧
+    e.format = (lastSome (·.format) ds).getD {} ∧ some e.path = ds.getLast?.map (·.path) := by
+  intro ds
+  unfold select at h
+  cases hm : mergeAll (matchedDocs docs p) with
+  | none => simp [hm] at h
+  | some m =>
+    have hs := C17_select_scalars _ m hm
+    have hr := C17_select_rewrite _ m hm
+    simp only [hm] at h
+    obtain ⟨h1, h2, h3, h4, h5, h6, h7⟩ := hs
+    unfold ConfigFragment.toEntry at h
+    cases he : m.encoding with
+    | none => simp [he, Outcome.map'] at h
+    | some enc =>
+    cases ha : m.account with
+    | none => simp [he, ha, Outcome.map'] at h
+    | some acc =>
+    cases ht : m.accountType with
+    | none => simp [he, ha, ht, Outcome.map'] at h
+    | some at' =>
+    cases hc : m.commodity with
+    | none => simp [he, ha, ht, hc, Outcome.map'] at h
+    | some com =>
+      simp only [he, ha, ht, hc, Outcome.map', Outcome.ok.injEq, Option.some.injEq] at h
+      subst h
+      simp only [ds]
+      refine ⟨hr, ?_, ?_, ?_, h4, ?_, ?_, h7⟩
+      · rw [← h1, he]
+      · rw [← h2, ha]
+      · rw [← h3, ht]
+      · rw [← h5, hc]; rfl
+      · rw [← h6]
+
+-- non-vacuity: three documents, two in force, nested paths, the longer one overrides
+private def exOuter : ConfigFragment :=
+  { path := "bank/", encoding := some "UTF-8", account := some "Assets:Bank", accountType := some .asset,
+    commodity := some (.primaryCommodity "CHF"),
+    rewrite := [{ matcher := Matcher.field ⟨[(Field.payee, "a")]⟩, account := some "A" }] }
+private def exInner : ConfigFragment :=
+  { path := "bank/okane", account := some "Assets:Okane",
+    rewrite := [{ matcher := Matcher.field ⟨[(Field.payee, "b")]⟩, account := some "B" }] }
+private def exOther : ConfigFragment := { path := "card/", account := some "Liabilities:Card" }
+
+private theorem exMatched :
+    matchedDocs [exInner, exOther, exOuter] "data/bank/okane/2024.csv" = [exOuter, exInner] := by
+  have h1 : pathMatches exInner "data/bank/okane/2024.csv" = true := by decide
+  have h2 : pathMatches exOther "data/bank/okane/2024.csv" = false := by decide
+  have h3 : pathMatches exOuter "data/bank/okane/2024.csv" = true := by decide
+  have h4 : pathLen exInner = 10 := by decide
+  have h5 : pathLen exOuter = 5 := by decide
+  simp [matchedDocs, List.filter, h1, h2, h3, List.mergeSort, h4, h5]
+
+example :
+    (select [exInner, exOther, exOuter] "data/bank/okane/2024.csv").map'
+        (fun o => o.map fun e => (e.account, e.rewrite.map (·.account), e.path))
+      = .ok (some ("Assets:Okane", [some "A", some "B"], "bank/okane")) := by
+  rw [select, exMatched]; decide
+
+/-! ## Part 2: the rule fold -/
+
+variable (cap : Captures) (r : Record)
+
+/-- **Rules apply in list order, each seeing the result of the rules before it**: the fragment for
+`rules₁ ++ rule :: rules₂` is obtained by applying `rule` to the fragment `rules₁` produced (so its `payee`
+matchers look at the payee as rewritten by `rules₁`), then folding `rules₂` over the result. -/
+theorem C17_fold (rules₁ rules₂ : List Rule) (rule : Rule) :
+    extract cap (rules₁ ++ rule :: rules₂) r
+      = rules₂.foldl (applyRule cap r) (applyRule cap r (extract cap rules₁ r) rule) := by
+  simp [extract, List.foldl_append]
+
+/-- a field matcher's fold only ever changes payee and code -/
+private theorem andExtract_frame (fs : List (Field × String)) (cur out : Fragment)
+    (h : andExtract cap r fs cur = some out) :
+    out.cleared = cur.cleared ∧ out.account = cur.account ∧ out.conversion = cur.conversion := by
+  induction fs generalizing cur with
+  | nil => simp [andExtract] at h; subst h; simp
+  | cons fp rest ih =>
+    obtain ⟨f, pat⟩ := fp
+    simp only [andExtract] at h
+    cases hc : fieldCaptures cap r f pat cur with
+    | none => simp [hc] at h
+    | some m =>
+      simp only [hc] at h
+      have := ih _ h
+      simpa [Fragment.addMatched] using this
+
+private theorem orExtract_frame (ms : List FieldMatcher) (cur out : Fragment)
+    (h : orExtract cap r ms cur = some out) :
+    out.cleared = cur.cleared ∧ out.account = cur.account ∧ out.conversion = cur.conversion := by
+  induction ms with
+  | nil => simp [orExtract] at h
+  | cons m rest ih =>
+    simp only [orExtract] at h
+    cases ha : andExtract cap r m.fields cur with
+    | none => simp only [ha] at h; exact ih h
+    | some f => simp only [ha, Option.some.injEq] at h; subst h; exact andExtract_frame cap r _ _ _ ha
+
+/-- **What one rule does.**  A rule whose matcher does not match leaves the fragment alone.  If the matcher
+matches, returning the fragment `c` (the current one plus the captured `payee` / `code`), then: the explicit
+`payee` of the rule wins over a captured one, which wins over the earlier one; the rule's `account` replaces
+the earlier account (a rule without account keeps it); a captured `code` replaces the earlier one; the
+record becomes cleared if the rule assigns an account and is not flagged `pending`. -/
+theorem C17_rule_step (frag : Fragment) (rule : Rule) :
+    match orExtract cap r rule.matcher.elements frag with
+    | none => applyRule cap r frag rule = frag
+    | some c =>
+      (applyRule cap r frag rule).payee = (rule.payee.or c.payee).or frag.payee ∧
+      (applyRule cap r frag rule).account = rule.account.or frag.account ∧
+      (applyRule cap r frag rule).code = c.code.or frag.code ∧
+      (applyRule cap r frag rule).cleared = (frag.cleared || (rule.account.isSome && !rule.pending)) ∧
+      (applyRule cap r frag rule).conversion = (rule.conversion.or frag.conversion) := by
+  cases h : orExtract cap r rule.matcher.elements frag with
+  | none => simp [applyRule, ruleExtract, h]
+  | some c =>
+    obtain ⟨h1, h2, h3⟩ := orExtract_frame cap r _ _ _ h
+    simp only [applyRule, ruleExtract, h, Option.map_some, ruleFinish]
+    cases ha : rule.account <;> cases hp : rule.pending <;> cases hc : rule.conversion <;>
+      cases hcc : c.conversion <;> cases hfc : frag.conversion <;>
+      simp_all [Fragment.addAssign]
+
+/-- `ruleExtract` succeeds exactly when the OR-list does -/
+private theorem ruleExtract_isSome (rule : Rule) (frag : Fragment) :
+    (ruleExtract cap r rule frag).isSome = (orExtract cap r rule.matcher.elements frag).isSome := by
+  simp [ruleExtract]
+
+private theorem applyRule_account (frag : Fragment) (rule : Rule) :
+    (applyRule cap r frag rule).account =
+      if (ruleExtract cap r rule frag).isSome then rule.account.or frag.account else frag.account := by
+  have := C17_rule_step cap r frag rule
+  cases h : orExtract cap r rule.matcher.elements frag with
+  | none => simp [h] at this; simp [this, ruleExtract, h]
+  | some c => simp [h] at this; simp [this.2.1, ruleExtract, h]
+
+private theorem applyRule_cleared (frag : Fragment) (rule : Rule) :
+    (applyRule cap r frag rule).cleared =
+      if (ruleExtract cap r rule frag).isSome then (frag.cleared || (rule.account.isSome && !rule.pending))
+      else frag.cleared := by
+  have := C17_rule_step cap r frag rule
+  cases h : orExtract cap r rule.matcher.elements frag with
+  | none => simp [h] at this; simp [this, ruleExtract, h]
+  | some c => simp [h] at this; simp [this.2.2.2.1, ruleExtract, h]
+
+private theorem fold_account (rules : List Rule) (f : Fragment) :
+    (rules.foldl (applyRule cap r) f).account
+      = ((matchingFrom cap r f rules).reverse.findSome? (·.account)).or f.account := by
+  induction rules generalizing f with
+  | nil => simp [matchingFrom]
+  | cons x xs ih =>
+    simp only [List.foldl_cons, ih, matchingFrom]
+    rw [applyRule_account]
+    cases h : ruleExtract cap r x f with
+    | none => simp [applyRule, h]
+    | some u =>
+      simp only [Option.isSome_some, if_true, List.reverse_cons, List.findSome?_append, Option.or_assoc]
+      congr 1
+      cases hxa : x.account <;> simp [hxa]
+
+private theorem fold_cleared (rules : List Rule) (f : Fragment) :
+    (rules.foldl (applyRule cap r) f).cleared
+      = (f.cleared || (matchingFrom cap r f rules).any (fun x => x.account.isSome && !x.pending)) := by
+  induction rules generalizing f with
+  | nil => simp [matchingFrom]
+  | cons x xs ih =>
+    simp only [List.foldl_cons, ih, matchingFrom]
+    rw [applyRule_cleared]
+    cases h : ruleExtract cap r x f with
+    | none => simp [applyRule, h]
+    | some u => simp [Bool.or_assoc]
+
+/-- **The account** of a record is the `account` of the last matching rule that has one (`matching`: the
+rules that match, each evaluated on the fragment left by its predecessors); no such rule — no account. -/
+theorem C17_account (rules : List Rule) :
+    (extract cap rules r).account = (matching cap rules r).reverse.findSome? (·.account) := by
+  simp [extract, matching, fold_account]
+
+/-- **Cleared / pending**: the record is cleared exactly when some matching rule assigns an account and is
+not flagged `pending`. -/
+theorem C17_pending (rules : List Rule) :
+    (extract cap rules r).cleared = (matching cap rules r).any (fun x => x.account.isSome && !x.pending) := by
+  simp [extract, matching, fold_cleared]
+
+/-- **An OR-list matches if any element does, and the first matching element decides.** -/
+theorem C17_or_first (ms : List FieldMatcher) (cur : Fragment) :
+    orExtract cap r ms cur = ms.findSome? (fun m => andExtract cap r m.fields cur) := by
+  induction ms with
+  | nil => rfl
+  | cons m rest ih =>
+    simp only [orExtract, List.findSome?_cons]
+    cases andExtract cap r m.fields cur <;> simp [ih]
+
+/-- **An element matches only if all its fields do**: it fails exactly when some field fails on the fragment
+produced by the fields before it (in the map's iteration order). -/
+theorem C17_and_all (fs : List (Field × String)) (cur : Fragment) :
+    andExtract cap r fs cur = none ↔
+      ∃ pre f pat post mid, fs = pre ++ (f, pat) :: post ∧ andExtract cap r pre cur = some mid ∧
+        fieldCaptures cap r f pat mid = none := by
+  induction fs generalizing cur with
+  | nil =>
+    simp only [andExtract, reduceCtorEq, false_iff]
+    rintro ⟨pre, f, pat, post, mid, h, _⟩
+    simp at h
+  | cons fp rest ih =>
+    obtain ⟨f0, pat0⟩ := fp
+    simp only [andExtract]
+    cases hc : fieldCaptures cap r f0 pat0 cur with
+    | none =>
+      simp only [true_iff]
+      exact ⟨[], f0, pat0, rest, cur, by simp, by simp [andExtract], hc⟩
+    | some m =>
+      simp only [ih]
+      constructor
+      · rintro ⟨pre, f, pat, post, mid, h1, h2, h3⟩
+        exact ⟨(f0, pat0) :: pre, f, pat, post, mid, by simp [h1], by simp [andExtract, hc, h2], h3⟩
+      · rintro ⟨pre, f, pat, post, mid, h1, h2, h3⟩
+        cases pre with
+        | nil =>
+          simp only [List.nil_append, List.cons.injEq, Prod.mk.injEq] at h1
+          simp only [andExtract, Option.some.injEq] at h2
+          obtain ⟨⟨rfl, rfl⟩, rfl⟩ := h1
+          subst h2
+          simp [hc] at h3
+        | cons p pre' =>
+          simp only [List.cons_append, List.cons.injEq] at h1
+          obtain ⟨rfl, rfl⟩ := h1
+          simp only [andExtract, hc] at h2
+          exact ⟨pre', f, pat, post, mid, rfl, h2, h3⟩
+
+/-- **Captures set payee and code**: the last field of an element is evaluated on the fragment produced by
+the fields before it, and its named groups `payee` / `code` replace the values so far (a group that did
+not take part leaves them). -/
+theorem C17_and_captures (fs : List (Field × String)) (f : Field) (pat : String) (cur : Fragment) :
+    andExtract cap r (fs ++ [(f, pat)]) cur
+      = (andExtract cap r fs cur).bind fun mid =>
+          (fieldCaptures cap r f pat mid).map fun m =>
+            { mid with payee := m.payee.or mid.payee, code := m.code.or mid.code } := by
+  induction fs generalizing cur with
+  | nil =>
+    simp only [List.nil_append, andExtract, Option.bind_some]
+    cases fieldCaptures cap r f pat cur <;> simp [Fragment.addMatched]
+  | cons fp rest ih =>
+    obtain ⟨f0, pat0⟩ := fp
+    simp only [List.cons_append, andExtract]
+    cases fieldCaptures cap r f0 pat0 cur with
+    | none => simp
+    | some m => simp [ih]
+
+/-- **Payee and code of a matching rule**: explicit `payee` wins; otherwise the payee captured by the
+deciding element; the `payee` field itself is matched against the payee as rewritten so far, falling back to
+the record's original payee. -/
+theorem C17_payee_code (frag : Fragment) (rule : Rule) (c : Fragment)
+    (h : orExtract cap r rule.matcher.elements frag = some c) :
+    (applyRule cap r frag rule).payee = (rule.payee.or c.payee).or frag.payee ∧
+    (applyRule cap r frag rule).code = c.code.or frag.code ∧
+    (∀ pat original, r .payee = .payee original →
+        fieldCaptures cap r .payee pat frag = (frag.payee.or original).bind (cap pat)) := by
+  have := C17_rule_step cap r frag rule
+  simp only [h] at this
+  refine ⟨this.1, this.2.2.1, ?_⟩
+  intro pat original hk
+  simp [fieldCaptures, kindCaptures, hk]
+
+/-! ## Part 3: what the ledger shows (`to_double_entry` on the fragment) -/
+
+/-- **A record matched by no account-assigning rule goes to Income:Unknown or Expenses:Unknown** by the sign
+of its amount; otherwise to the account the rules assigned.  The counter-posting is the last posting for a
+non-negative amount and the first one for a negative amount. -/
+theorem C17_unknown_account (t : Txn) (frag : Fragment) (src : String) :
+    let t' := t.withFragment frag
+    let fallback := if t.amount.value.neg then "Expenses:Unknown" else "Income:Unknown"
+    ∃ tr, t'.toDoubleEntry src = .ok tr ∧
+      (if t.amount.value.neg then tr.posts.head? else tr.posts.getLast?) = some (t'.destPosting fallback) ∧
+      (t'.destPosting fallback).account = frag.account.getD fallback := by
+  intro t' fallback
+  have hamt : t'.amount = t.amount := by
+    simp only [t', Txn.withFragment]
+    split <;> rfl
+  have hdest : t'.destAccount = frag.account := by
+    simp only [t', Txn.withFragment]
+    split <;> rfl
+  cases hneg : t.amount.value.neg with
+  | false =>
+    refine ⟨_, by simp [Txn.toDoubleEntry, Txn.postings, Dec.isSignPositive, hamt, hneg]; rfl, ?_, ?_⟩
+    · simp only [fallback, hneg, Bool.false_eq_true, if_false]
+      rw [← List.cons_append]
+      exact List.getLast?_concat
+    · simp [Txn.destPosting, hdest]
+  | true =>
+    refine ⟨_, by simp [Txn.toDoubleEntry, Txn.postings, Dec.isSignPositive, Dec.isSignNegative, hamt, hneg]; rfl, ?_, ?_⟩
+    · simp [fallback, hneg]
+    · simp [Txn.destPosting, hdest]
+
+/-- a cleared fragment has an account (so the counter-posting of a cleared record is never `Unknown`) -/
+theorem extract_cleared_account (rules : List Rule) (h : (extract cap rules r).cleared = true) :
+    (extract cap rules r).account.isSome = true := by
+  rw [C17_pending] at h
+  rw [C17_account]
+  obtain ⟨x, hx, hp⟩ := List.any_eq_true.mp h
+  simp only [Bool.and_eq_true] at hp
+  rw [List.findSome?_isSome_iff]
+  exact ⟨x, by simpa using hx, hp.1⟩
+
+/-- **The counter-posting is marked pending (`!`) unless some matching account-assigning rule is not
+flagged `pending`**; when one is, the counter-posting carries no mark. -/
+theorem C17_pending_mark (t : Txn) (rules : List Rule) (fallback : String) (ht : t.clearState = none) :
+    ((t.withFragment (extract cap rules r)).destPosting fallback).clear
+      = if (matching cap rules r).any (fun x => x.account.isSome && !x.pending) then .uncleared else .pending := by
+  rw [← C17_pending]
+  cases hc : (extract cap rules r).cleared with
+  | false => simp [Txn.withFragment, hc, Txn.destPosting, Txn.postClear, Txn.setClearState]
+  | true =>
+    have ha := extract_cleared_account cap r rules hc
+    obtain ⟨a, ha⟩ := Option.isSome_iff_exists.mp ha
+    simp [Txn.withFragment, hc, Txn.destPosting, Txn.postClear, Txn.destAccountOption, ht, ha]
+
+/-! ## Part 4: the order of the fields inside one element (finding F14) -/
+
+/-- **Kept visible, FALSE on the current code**: the outcome of one element does not depend on the
+iteration order of its field map. -/
+def C17_and_order : Prop :=
+  ∀ (cap : Captures) (r : Record) (fs fs' : List (Field × String)) (cur : Fragment),
+    fs.Perm fs' → andExtract cap r fs cur = andExtract cap r fs' cur
+
+/-- a two-pattern "regex engine" for the witness -/
+def witnessCap : Captures := fun pat hay =>
+  if pat = "(?P<payee>Service) stations" then
+    (if hay = "Service stations" then some ⟨some "Service", none⟩ else none)
+  else if pat = "^Service$" then (if hay = "Service" then some {} else none)
+  else none
+
+/-- a Viseca record: payee `Europe Gas AT`, category `Service stations` -/
+def witnessRec : Record := fun f =>
+  match f with
+  | .payee => .payee (some "Europe Gas AT")
+  | .category => .text (some "Service stations") true
+  | _ => .text none true
+
+/-- F14: with the category field first its captured payee `Service` is what the payee field sees and the
+element matches; with the payee field first it looks at `Europe Gas AT` and the element fails. -/
+theorem C17_and_order_false : ¬ C17_and_order := by
+  intro h
+  have := h witnessCap witnessRec
+    [(.category, "(?P<payee>Service) stations"), (.payee, "^Service$")]
+    [(.payee, "^Service$"), (.category, "(?P<payee>Service) stations")] {} (List.Perm.swap _ _ _)
+  revert this
+  decide
+
+/-- a way of reading a field that neither looks at the payee nor contributes capture groups -/
+def inertKind (cap : Captures) (k : FieldKind) (pat : String) : Bool :=
+  match k with
+  | .payee _ => false
+  | .text v keep => !keep || (match v.bind (cap pat) with | some m => m == {} | none => true)
+  | .code _ => true
+
+/-- a field that neither reads the payee nor contributes capture groups -/
+def inertField (cap : Captures) (r : Record) (fp : Field × String) : Bool := inertKind cap (r fp.1) fp.2
+
+private theorem addMatched_empty (cur : Fragment) : cur.addMatched {} = cur := by
+  cases cur; simp [Fragment.addMatched]
+
+private theorem inertKind_spec (k : FieldKind) (pat : String) (cur : Fragment) (h : inertKind cap k pat = true) :
+    kindCaptures cap k pat cur = kindCaptures cap k pat {} ∧
+    ∀ m, kindCaptures cap k pat {} = some m → m = {} := by
+  cases k with
+  | payee o => simp [inertKind] at h
+  | code v =>
+    cases v with
+    | none => simp [kindCaptures]
+    | some v => by_cases hv : v = pat <;> simp [kindCaptures, hv]
+  | text v keep =>
+    simp only [inertKind] at h
+    cases hv : v.bind (cap pat) with
+    | none => simp [kindCaptures, hv]
+    | some m =>
+      cases keep with
+      | false => simp [kindCaptures, hv]
+      | true =>
+        simp only [hv, Bool.not_true, Bool.false_or, beq_iff_eq] at h
+        subst h
+        simp [kindCaptures, hv]
+
+private theorem andExtract_cons (f : Field) (pat : String) (rest : List (Field × String)) (cur : Fragment) :
+    andExtract cap r ((f, pat) :: rest) cur
+      = (fieldCaptures cap r f pat cur).bind fun m => andExtract cap r rest (cur.addMatched m) := by
+  simp only [andExtract]
+  split <;> simp_all
+
+private theorem inert_cons (fp : Field × String) (rest : List (Field × String)) (cur : Fragment)
+    (h : inertField cap r fp = true) :
+    andExtract cap r (fp :: rest) cur
+      = if (fieldCaptures cap r fp.1 fp.2 {}).isSome then andExtract cap r rest cur else none := by
+  obtain ⟨f, pat⟩ := fp
+  obtain ⟨h1, h2⟩ := inertKind_spec cap (r f) pat cur h
+  rw [andExtract_cons]
+  simp only [fieldCaptures, h1]
+  rcases Option.eq_none_or_eq_some (kindCaptures cap (r f) pat {}) with hk | ⟨m, hk⟩
+  · simp [hk]
+  · have := h2 m hk
+    subst this
+    simp [hk, addMatched_empty]
+
+private theorem inert_swap (a b : Field × String) (l : List (Field × String)) (cur : Fragment)
+    (h : inertField cap r a = true) :
+    andExtract cap r (a :: b :: l) cur = andExtract cap r (b :: a :: l) cur := by
+  rw [inert_cons cap r a _ _ h]
+  obtain ⟨f, pat⟩ := b
+  rw [andExtract_cons, andExtract_cons]
+  cases fieldCaptures cap r f pat cur with
+  | none => simp
+  | some m => simp only [Option.bind_some]; rw [inert_cons cap r a _ _ h]
+
+/-- **What is proved about field order**: if at most one field of the element reads the payee or
+contributes capture groups, the outcome is the same for every iteration order.  (Always the case for the
+CSV matcher, whose only capturing field is `payee` itself.) -/
+theorem C17_and_order_partial (fs fs' : List (Field × String)) (cur : Fragment) (hperm : fs.Perm fs')
+    (h : (fs.filter (fun fp => !inertField cap r fp)).length ≤ 1) :
+    andExtract cap r fs cur = andExtract cap r fs' cur := by
+  induction hperm generalizing cur with
+  | nil => rfl
+  | cons x _ ih =>
+    obtain ⟨f, pat⟩ := x
+    rw [andExtract_cons, andExtract_cons]
+    cases fieldCaptures cap r f pat cur with
+    | none => rfl
+    | some m =>
+      simp only [Option.bind_some]
+      apply ih
+      simp only [List.filter_cons] at h
+      split at h
+      · simp only [List.length_cons] at h; omega
+      · exact h
+  | swap x y l =>
+    by_cases hy : inertField cap r y = true
+    · exact inert_swap cap r y x l cur hy
+    · have hx : inertField cap r x = true := by
+        by_cases hx : inertField cap r x = true
+        · exact hx
+        · simp [hx, hy] at h
+      exact (inert_swap cap r x y l cur hx).symm
+  | trans p1 _ ih1 ih2 =>
+    rw [ih1 cur h]
+    apply ih2
+    have := (p1.filter (fun fp => !inertField cap r fp)).length_eq
+    omega
+
+/-! ## Non-vacuity: concrete rules, a concrete record, a concrete "regex engine" -/
+
+/-- three patterns decided by hand -/
+def exCap : Captures := fun pat hay =>
+  if pat = "Debit Card (?P<code>\\d+) (?P<payee>.*)" then
+    (if hay = "Debit Card 1234 Migros" then some ⟨some "Migros", some "1234"⟩ else none)
+  else if pat = "Migros" then (if hay = "Migros" ∨ hay = "Debit Card 1234 Migros" then some {} else none)
+  else if pat = "Buy" then (if hay = "Buy" then some {} else none)
+  else none
+
+/-- a CSV record -/
+def exRec : Record := fun f =>
+  match f with
+  | .payee => .payee (some "Debit Card 1234 Migros")
+  | .category => .text (some "Groceries") false
+  | _ => .text none true
+
+def exRules : List Rule :=
+  [ { matcher := Matcher.field ⟨[(Field.payee, "Debit Card (?P<code>\\d+) (?P<payee>.*)")]⟩ },
+    { matcher := Matcher.or [⟨[(Field.category, "Buy")]⟩, ⟨[(Field.payee, "Migros")]⟩],
+      account := some "Expenses:Grocery", pending := true },
+    { matcher := Matcher.field ⟨[(Field.category, "Buy"), (Field.payee, "Migros")]⟩, account := some "Assets:Broker" } ]
+
+-- rule 1 captures payee and code, rule 2 (second OR element) matches the *rewritten* payee and assigns the
+-- account but is flagged pending, rule 3 fails on its category field: account set, not cleared
+example : extract exCap exRules exRec
+    = { cleared := false, payee := some "Migros", account := some "Expenses:Grocery", code := some "1234" } := by
+  decide
+example : matching exCap exRules exRec = exRules.take 2 := by decide
+example : (matching exCap exRules exRec).any (fun x => x.account.isSome && !x.pending) = false := by decide
+-- the hypotheses of C17_payee_code / C17_rule_step (`some` branch) are met by rule 1
+example : orExtract exCap exRec (exRules[0]!).matcher.elements {}
+    = some { payee := some "Migros", code := some "1234" } := by decide
+-- C17_and_all: rule 3's element fails at its first field
+example : andExtract exCap exRec [(Field.category, "Buy"), (Field.payee, "Migros")] {} = none := by decide
+-- C17_and_order_partial: its hypothesis holds for that element (the category field of a CSV record is inert)
+example : ([(Field.category, "Buy"), (Field.payee, "Migros")].filter
+    (fun fp => !inertField exCap exRec fp)).length ≤ 1 := by decide
+-- C17_unknown_account / C17_pending_mark on a concrete record: counter-posting `! Expenses:Grocery`
+example :
+    let t := (Txn.new ⟨2024, 1, 2⟩ "x" ⟨⟨true, 1250, 2⟩, "CHF"⟩).withFragment (extract exCap exRules exRec)
+    (t.toDoubleEntry "Assets:Bank").map' (fun tr => tr.posts.map fun p => (p.account, p.clear))
+      = .ok [("Expenses:Grocery", .pending), ("Assets:Bank", .uncleared)] := by decide
+-- and with no rule at all: `! Income:Unknown` for a credit
+example :
+    let t := (Txn.new ⟨2024, 1, 2⟩ "x" ⟨⟨false, 1250, 2⟩, "CHF"⟩).withFragment (extract exCap [] exRec)
+    (t.toDoubleEntry "Assets:Bank").map' (fun tr => tr.posts.map fun p => (p.account, p.clear))
+      = .ok [("Assets:Bank", .uncleared), ("Income:Unknown", .pending)] := by decide
+
+end Okane.Import
